@@ -31,24 +31,24 @@ func init() {
 
 // stack is one shim over one reference agent.
 type stack struct {
-	cat      *catalog
-	ref      *refagent.Agent
-	peer     *refagent.Peer
-	shim     shimagent.ShimAgent
-	a, b     net.Conn
-	done     chan struct{}
-	model    shimmodel.State
-	fired    int      // faults fired so far
-	kept     []keptReply // replies of raw relays that the caller still holds
-	acted    []string // identities another client added to the underlying agent during the call in progress
+	cat   *catalog
+	ref   *refagent.Agent
+	peer  *refagent.Peer
+	shim  shimagent.ShimAgent
+	a, b  net.Conn
+	done  chan struct{}
+	model shimmodel.State
+	fired int         // faults fired so far
+	kept  []keptReply // replies of raw relays that the caller still holds
+	acted []string    // identities another client added to the underlying agent during the call in progress
 	// actMayPurge: in-memory certificates that an orphan / expiry purge may have dropped at some moment of a call
 	// during which another client changed the underlying agent (consumed by resync)
 	actMayPurge map[string]bool
-	firedLog []string // kinds
-	closed   bool     // a closing fault fired: the upstream connection is gone
-	lastReq  []byte   // the request the peer is answering
-	mustFail string   // set when a fault replaced an answer that would have been a success: the call in progress cannot succeed
-	shimDead bool     // the shim closed its connection itself
+	firedLog    []string // kinds
+	closed      bool     // a closing fault fired: the upstream connection is gone
+	lastReq     []byte   // the request the peer is answering
+	mustFail    string   // set when a fault replaced an answer that would have been a success: the call in progress cannot succeed
+	shimDead    bool     // the shim closed its connection itself
 }
 
 func isClosing(f string) bool {
